@@ -80,6 +80,11 @@ def run(drv, case):
         ('list-element', 'list', L('[., 2.5, ') + T + L(']'), lambda l: l[2][2][1]),
         ('query-argument', 'query', L('q(., ') + T + L(')'), lambda g: g[1][1][2]),
         ('builtin-argument', 'subgoal', L('print(., ') + T + L(')'), lambda g: g[2][1]),
+        # no space after the comma
+        ('complex-argument', 'complex', L('f(x,') + T + L(',y)'), lambda v: v[1][2]),
+        ('list-element', 'list', L('[x,') + T + L(']'), second_elem),
+        ('builtin-argument', 'subgoal', L('print(x,') + T + L(')'), lambda g: g[2][1]),
+        ('query-argument', 'query', L('q(x,') + T + L(')'), lambda g: g[1][1][2]),
         ('list-element', 'list', L('[') + T + L(']'), first_elem),
         ('list-element', 'list', L('[x, ') + T + L(']'), second_elem),
         ('infix-operand', 'subgoal', L('$Z = ') + T, lambda g: g[2][1]),
